@@ -24,6 +24,8 @@ CHECKS = {
     **H13.CHECKS,
     **HACC.CHECKS,
     "C02:Bag.vector": lambda: H.chk_bag_vector("fill"),
+    "C02:Stack.unsorted": lambda: H.chk_stack_unsorted(),
+    "C12:rollback": lambda: next((m for K in H.CLASSES for m in [H.chk_rollback(K)] if m), None),
     "C01:Bag.vector": lambda: H.chk_bag_vector("merge"),
     "C08:Bag.vector": lambda: H.chk_bag_vector("scale"),
     "C09:Bag.vector": lambda: H.chk_bag_vector("eq"),
